@@ -245,8 +245,11 @@ def _replay_cache(item):
     return viol
 
 
-def _run_cache(seed):
-    res = run_tlc(AREA, "DesurveyCache", "DesurveyCache.cfg", workers=1, heap=HEAP)
+CACHE_CFG = {"quick": "DesurveyCache.cfg", "thorough": "DesurveyCacheThorough.cfg"}
+
+
+def _run_cache(tier, seed):
+    res = run_tlc(AREA, "DesurveyCache", CACHE_CFG[tier], workers=1, heap=HEAP)
     if not res.ok:
         raise MachineryError(f"DesurveyCache violates {res.violated}")
     pos = next(obj for tag, _, obj in res.lines if tag == "POS")
@@ -605,14 +608,14 @@ def run(tier, seed):
     if not n_degenerate:
         raise MachineryError("no table with a repeated final depth and differing directions was generated")
     # 2. setters vs cache
-    cres, cout, n_paths, n_query, csample = _run_cache(seed)
+    cres, cout, n_paths, n_query, csample = _run_cache(tier, seed)
     viol += _split(cout)
     states += cres.distinct
     trans += cres.generated
     replayed += n_paths
-    per_cfg["DesurveyCache.cfg"] = {"states": cres.distinct, "transitions": cres.generated, "paths": n_paths,
+    per_cfg[CACHE_CFG[tier]] = {"states": cres.distinct, "transitions": cres.generated, "paths": n_paths,
                                     "queries_compared": n_query}
-    samples.append({"cfg": "DesurveyCache.cfg", **csample})
+    samples.append({"cfg": CACHE_CFG[tier], **csample})
     # 3. add_data histories
     lviol, lcov, lstates, ltrans, lreplayed, lsteps, lsample, exhaustive = _run_log(tier, seed)
     viol += lviol
@@ -649,7 +652,7 @@ def run(tier, seed):
                     "LimitsAgree, LegAlongMean, UnitSpeedOnStraightLegs, BeyondFollowsLastLeg on the exact rational "
                     "path and prints it; Drillhole.desurvey is compared at every grid depth (shuffled queries, array "
                     "and list, created with / assigned surveys, plain and concatenated holes, live and re-opened). "
-                    "DesurveyCache.tla: every transition of setters and queries is replayed. DrillholeLog.tla: the "
+                    "DesurveyCache.tla: every sequence of setters and queries up to MaxSteps is replayed. DrillholeLog.tla: the "
                     "state graph of add_data histories is exported, a path cover is replayed and after every call "
                     "vertices (by position), DEPTH, cells, FROM/TO and every value array are compared with the state "
                     "TLC computed, live and after re-opening; VertexAtDepth, CellsJoin, ValuesAttached, ArraysAligned "
